@@ -270,6 +270,8 @@ def validation_domain(ck, prog, tier):
         ("last angle not 2pi", good_r, g8[:-1] + [lat(M - 1)], False), ("angles not increasing", good_r, [g8[0], g8[2], g8[1], g8[3], g8[4]], False),
         ("repeated angle", good_r, [g8[0], g8[1], g8[1], g8[2], g8[3], g8[4]], False), ("negative angle", good_r, [dag.const(F(-1, 10))] + g8[1:], False),
         ("well-formed", good_r, g8, True),
+        # what a failed file load leaves behind: empty arrays must be rejected before anything reads them
+        ("no radii (failed load)", (), g8, False), ("no angles (failed load)", good_r, [], False), ("no radii and no angles (failed load)", (), [], False),
     ]
     for name, rad, ang, want in malformed:
         key = "malformed input: %s" % name
@@ -504,15 +506,7 @@ def main(tier):
             ck.ok("R-C18-2", key)
     if nct < 3:
         raise ir.AnalysisBroken("found %d PolarGrid constructors" % nct)
-    chk = prog.fn("PolarGrid::checkParameters")
-    ck.analysed(chk)
-    ck.instance("R-C18-2", "checkParameters rejects empty/short arrays first")
-    first = chk["body"]["s"][0]
-    ok = first.get("k") == "If" and any(n.get("k") == "Throw" for n in ir.walk(first["t"])) and "size" in ir.show(first["c"])
-    if ok:
-        ck.ok("R-C18-2", "empty")
-    else:
-        ck.violation("R-C18-2", "checkParameters:size-test", ir.locstr(chk), "checkParameters no longer starts by rejecting too few radii: a failed file load (empty arrays) is not rejected before use")
+    # (that checkParameters rejects the empty arrays a failed file load leaves behind is decided by interpreting it on them: R-C18-8)
     # ---------------- R-C18-3
     f_choose = prog.fn("GMGPolar::chooseNumberOfLevels")
     ck.analysed(f_choose)
